@@ -604,11 +604,15 @@ def run(chk):
         alpha = sorted(set(t))
         s = [alpha.index(x) + 1 for x in t] + [0]
         exp = sorted(range(len(s)), key=lambda i: s[i:])
-        evaluations += len(s)
-        if io != "sa=%s ok32=1 ok=1" % jn(exp):
-            prop_bad.append({"variant": "sais", "line": sais_lines[j], "got": io[:300], "spec": "sa=" + jn(exp)})
-        if mo != "sa=" + jn(exp):
-            corr_bad.append({"section": "sais", "line": sais_lines[j], "model": mo[:300], "sorted": jn(exp)})
+        isa_ = [0] * len(s)
+        for i_, p_ in enumerate(exp):
+            isa_[p_] = i_
+        psi_ = [isa_[(p_ + 1) % len(s)] for p_ in exp]
+        evaluations += 2 * len(s)
+        if io != "sa=%s ok32=1 ok=1 psi=%s psi3=1" % (jn(exp), jn(psi_)):
+            prop_bad.append({"variant": "sais/psi", "line": sais_lines[j], "got": io[:300], "spec": "sa=%s psi=%s" % (jn(exp), jn(psi_))})
+        if mo != "sa=%s psi=%s" % (jn(exp), jn(psi_)):
+            corr_bad.append({"section": "sais/psi", "line": sais_lines[j], "model": mo[:300], "sorted": jn(exp)})
     # ---------------- in-harness search, deep codes
     off += len(sais_lines)
     for j, l in enumerate(fuzz_lines):
@@ -642,7 +646,7 @@ def run(chk):
             "extraction via ExtrOcamlBasic (no Extract Constant of ours) + ocaml/scrunch/mx_scrunch.ml driver",
             "harness/src/bin/c19.rs (its naive scan is cross-checked against the Python scan on every case)",
             "by interface, compared not proved: SA-IS (sais.rs), RRR / sparse / reference bit vectors, prefix wavelet tree + Huffman / fixed-width encoders, bit arrays, protobuf framing, std binary_search / partition_point / sort / HashMap",
-            "lib.rs inverse_and_psi_u32 (one-pass fill with sentinels) is represented by inverse + compute_from_sa_isa_u32; compared at every index",
+            "unsafe code in lib.rs / psi/wavelet_tree.rs (get_unchecked, MaybeUninit) is modelled as checked access: reading an unwritten slot is a Panic the theorems exclude",
         ],
     })
     chk.assumptions = ["texts are indexed only with a valid record division (check_record_boundaries): non-empty text, first record at 0, strictly increasing starts, last record non-empty; both constructors refuse everything else and the check verifies the refusal",
